@@ -649,6 +649,14 @@ example : GateProg.isExecOrDiscard ((GateProg.run {} schedWatch).1.loc 1).cmd = 
     commandOver ((GateProg.run {} schedAbort).1.loc 1).pc = true ∧
     GateProg.isExecOrDiscard ((GateProg.run {} schedDiscard).1.loc 1).cmd = true ∧
     commandOver ((GateProg.run {} schedDiscard).1.loc 1).pc = true := by decide
+open GateProg.Ex in
+/-- `queued_command_takes_no_keyspace_step`: a SET arriving at execCommand on a connection that is queuing -/
+example : ((GateProg.run {} (simple 1 .multi ++ [(1, cmd (.plain 7)), (1, n), (1, n), (1, n)])).1.loc 1).pc = .ec ∧
+    ((GateProg.run {} (simple 1 .multi ++ [(1, cmd (.plain 7)), (1, n), (1, n), (1, n)])).1.sh.conn 1).prep = true := by decide
+open GateProg.Ex in
+/-- `gateprog_queued_bodies_inside_section`: the queued SET about to begin its transaction inside EXEC's loop -/
+example : ((GateProg.run {} (schedToCheck ++ schedRest.take 4)).1.loc 1).ctx = .execLoop ∧
+    ((GateProg.run {} (schedToCheck ++ schedRest.take 4)).1.loc 1).pc = .b1 := by decide
 
 end gateprog
 
